@@ -377,7 +377,16 @@ fn pool(profile: &str, rng: &mut Rng, tok: u64) -> Vec<u8> {
     let cas_choices = [0u64, 0, tok, tok, 99];
     let cas = *rng.pick(&cas_choices);
     let ttl = *rng.pick(&[0u32, 0, 0, 50]);
-    let base: usize = if profile == "C03" { 4 } else { 10 };
+    let base: usize = if matches!(profile, "C03" | "C02" | "C05") { 4 } else { 10 };
+    if profile == "C02" {
+        // every mutation carries a CAS: the item's current one (mostly) or a stale one
+        let c = *rng.pick(&[tok, tok, tok, 99]);
+        return match rng.below(4) {
+            0 => wire::key_only(op::GET, KEY, 0, opq).bytes(),
+            1 | 2 => wire::set_like(op::SET, KEY, &rng.bytes(2), 1, ttl, c, opq).bytes(),
+            _ => wire::key_only(op::DELETE, KEY, c, opq).bytes(),
+        };
+    }
     match rng.below(base as u64) {
         0 => wire::key_only(op::GET, KEY, 0, opq).bytes(),
         1 => wire::set_like(op::SET, KEY, &rng.bytes(2), rng.next() as u32 % 8, ttl, 0, opq).bytes(),
@@ -393,7 +402,7 @@ fn pool(profile: &str, rng: &mut Rng, tok: u64) -> Vec<u8> {
 }
 
 pub fn gen_case(profile: &str, rng: &mut Rng) -> Case {
-    let init = *rng.pick(&["absent", "present", "expired"]);
+    let init = if profile == "C05" { *rng.pick(&["expired", "expired", "expired", "present"]) } else { *rng.pick(&["absent", "present", "expired"]) };
     let mut setup = vec!["cnew 4096".to_string()];
     match init {
         "present" => {
@@ -754,12 +763,55 @@ pub fn run_suite(profile: &str, seed: u64, count: u64, per_case: usize, mut trac
                 for w in &ws {
                     *st.nonlinearizable_known.entry(w.clone()).or_insert(0) += 1;
                 }
-                let props: Vec<&'static str> = if only_c03_cmds { vec!["C03", "C04"] } else { vec!["C04"] };
+                let mut props: Vec<&'static str> = if only_c03_cmds { vec!["C03", "C04"] } else { vec!["C04"] };
+                if only_c03_cmds {
+                    props.extend(also_broken(&case.programs, &outcome));
+                }
                 viols.push((start, end, props, msg));
             }
         }
     }
     (ops, outs, viols, st)
+}
+
+/// which other properties a non-linearizable outcome of get/set/delete programs also breaks:
+/// C02 (and C08 for deletes) when an acknowledged mutation carried a CAS — the CAS guard let it through although no
+/// one-at-a-time order allows it; C05 when the last mutating call was an acknowledged store and the item is
+/// nevertheless gone at rest — it vanished before its deadline without being deleted or overwritten
+pub fn also_broken(programs: &[Vec<Vec<u8>>], o: &Outcome) -> Vec<&'static str> {
+    let mut out = vec![];
+    let cas_of = |f: &Vec<u8>| u64::from_be_bytes(f[16..24].try_into().unwrap());
+    for (t, p) in programs.iter().enumerate() {
+        for (i, f) in p.iter().enumerate() {
+            let acked = o.results.get(t).and_then(|r| r.get(i)).map(|r| r.starts_with("ok")).unwrap_or(false);
+            if acked && cas_of(f) != 0 && matches!(f[1], 0x01 | 0x04) {
+                if !out.contains(&"C02") {
+                    out.push("C02");
+                }
+                if f[1] == 0x04 && !out.contains(&"C08") {
+                    out.push("C08");
+                }
+            }
+        }
+    }
+    // command index of every call: a get_by_key, set or delete call begins a command of its thread
+    let mut idx = vec![0usize; programs.len()];
+    let mut last: Option<(usize, usize, &'static str)> = None;
+    for (who, what) in &o.steps {
+        if matches!(*what, "get_by_key" | "set" | "delete") {
+            if matches!(*what, "set" | "delete") {
+                last = Some((*who, idx[*who], *what));
+            }
+            idx[*who] += 1;
+        }
+    }
+    if let Some((t, i, "set")) = last {
+        let acked = o.results.get(t).and_then(|r| r.get(i)).map(|r| r.starts_with("ok")).unwrap_or(false);
+        if acked && !o.dump.contains("k=") {
+            out.push("C05");
+        }
+    }
+    out
 }
 
 /// C14, concurrent clause, at the granularity of RandomPolicy's trait calls: small programs of stores,
